@@ -30,6 +30,8 @@ struct CallSpec {
     schema_model: GSchema,
     schema_form: Option<J>, // string (Cedar) or object (JSON)
     validate_request: bool,
+    /// leave `validateRequest` out of the call document (only when it is true: the documented default)
+    omit_validate_flag: bool,
     statics: Vec<PolSpec>,
     concatenated: bool,
     template: Option<(PolSpec, String, Option<Uid>, Option<Uid>)>, // (template, link id, ?principal, ?resource)
@@ -75,7 +77,9 @@ fn call_json(c: &CallSpec) -> J {
     if let Some(s) = &c.schema_form {
         o.insert("schema".into(), s.clone());
     }
-    o.insert("validateRequest".into(), json!(c.validate_request));
+    if !(c.validate_request && c.omit_validate_flag) {
+        o.insert("validateRequest".into(), json!(c.validate_request));
+    }
     o.insert("policies".into(), policies_json(c));
     o.insert("entities".into(), c.entities_json.clone());
     J::Object(o)
@@ -248,7 +252,7 @@ fn make_call_for(ctx: &mut CaseCtx, id_prefix: &str, gs: GSchema) -> Option<Call
     let skip: Vec<Uid> = if with_schema { acts.clone() } else { vec![] };
     let entities_json = entities_json_typed(&mut ctx.rng, &gs, &w, implicit, &skip, &mut used);
     let context_json = value_json_typed(&mut ctx.rng, &gs, &GValue::Rec(w.context.clone()), &GType::Rec(env.context.clone()), implicit, &mut used);
-    Some(CallSpec { schema_model: gs, schema_form, validate_request: ctx.rng.chance(2, 3), statics, concatenated, template, world: w, entities_json, context_json })
+    Some(CallSpec { schema_model: gs, schema_form, validate_request: ctx.rng.chance(2, 3), omit_validate_flag: ctx.rng.bool(), statics, concatenated, template, world: w, entities_json, context_json })
 }
 
 fn check_authorization(ctx: &mut CaseCtx) {
@@ -492,7 +496,9 @@ fn run_history(rng: &mut Rng, names: [String; 3], calls: Vec<CallSpec>, steps: u
                 call.insert("action".into(), render::uid_json(&c.world.action));
                 call.insert("resource".into(), render::uid_json(&c.world.resource));
                 call.insert("context".into(), c.context_json.clone());
-                call.insert("validateRequest".into(), json!(c.validate_request));
+                if !(c.validate_request && c.omit_validate_flag) {
+                    call.insert("validateRequest".into(), json!(c.validate_request));
+                }
                 call.insert("preparsedPolicySetId".into(), json!(pname));
                 if let Some(s) = &sname {
                     call.insert("preparsedSchemaName".into(), json!(s));
